@@ -50,7 +50,7 @@ Definition N1 (s : st) : Prop := forall i p, In (i, p) (threads s) -> nrel p <= 
 
 Lemma N1_step : forall s e, N1 s -> N1 (step s e).
 Proof.
-  intros s e I. destruct e as [i o|i| |k| |]; rewrite step_fixed; cbn [step_].
+  intros s e I. destruct e as [i o|i| |k|kf| |]; rewrite step_fixed; cbn [step_].
   - destruct (up s); [|exact I]. destruct (get_thread i (threads s)); [exact I|].
     intros j q Hin. cbn in Hin. apply in_app_or in Hin. destruct Hin as [Hin|[Hin|[]]]; [eapply I; exact Hin|].
     inversion Hin; subst. cbn. lia.
@@ -76,6 +76,13 @@ Proof.
     + destruct (in_put_thread _ _ _ _ _ Hin) as [H|(-> & -> & _)]; [eapply I; exact H|].
       assert (Hp : nrel (MAwait :: rest) <= 1) by (eapply I; apply get_thread_in; exact Hg).
       rewrite nrel_cons in Hp. cbn in Hp. lia.
+  - destruct (lock s) as [j|]; [|exact I].
+    destruct (fail_step_fields s j kf) as [->|(_ & _ & _ & _ & _ & _ & _ & _ & _ & [E|(i1 & rest & _ & Hg & E)])]; [exact I| |].
+    + intros i0 q Hin. rewrite E in Hin. eapply I. exact Hin.
+    + intros i0 q Hin. rewrite E in Hin.
+      destruct (in_put_thread _ _ _ _ _ Hin) as [H|(-> & -> & _)]; [eapply I; exact H|].
+      assert (Hp : nrel (MAwait :: rest) <= 1) by (eapply I; apply get_thread_in; exact Hg).
+      rewrite nrel_cons in Hp. cbn in Hp. lia.
   - destruct (up s); [|exact I]. intros j q [].
   - destruct (up s || broken s); [exact I|]. unfold restart.
     destruct (dat (fs s)) as [c|]; [destruct (complete c); [destruct (load (f_doc c) (next_id s))|]|]; intros j q [].
@@ -86,7 +93,7 @@ Definition HistIds (s : st) : Prop := Forall (fun L => NoDup (map t_id L)) (hist
 
 Lemma hist_step : forall s e, hist (step s e) = hist s \/ hist (step s e) = live_ (step s e) :: hist s.
 Proof.
-  intros s e. destruct e as [i o|i| |k| |]; rewrite step_fixed; cbn [step_].
+  intros s e. destruct e as [i o|i| |k|kf| |]; rewrite step_fixed; cbn [step_].
   - destruct (up s); [|auto]. destruct (get_thread i (threads s)); auto.
   - destruct (get_thread i (threads s)) as [[|m rest]|]; auto.
     destruct (exec_shape_holds true s i m rest) as (_ & _ & _ & [[_ H]|[H _]] & _); auto.
@@ -100,6 +107,8 @@ Proof.
     + destruct (lookup (j_tmp j) (tmps (fs s))) as [c|]; [|reflexivity].
       destruct (j_owner j) as [i|]; [|reflexivity]. cbn.
       destruct (get_thread i (threads s)) as [[|[] rest]|]; reflexivity.
+  - destruct (lock s) as [j|]; [|auto]. left.
+    destruct (fail_step_fields s j kf) as [->|(_ & _ & _ & _ & _ & E & _)]; [reflexivity|exact E].
   - destruct (up s); auto.
   - destruct (up s || broken s); [auto|]. unfold restart.
     destruct (dat (fs s)) as [c|]; [destruct (complete c); [destruct (load (f_doc c) (next_id s))|]|]; cbn; auto.
@@ -467,7 +476,7 @@ Proof.
   { intros s' Es Em El Ev Ed Eh. rewrite Es, Em.
     assert (Esn : snapping s' = snapping s) by (unfold snapping; rewrite El; reflexivity).
     rewrite Esn. pose proof (Lin_frame s s' n El Ev Ed Eh HL) as F. destruct (snapping s); exact F. }
-  destruct e as [i o|i| |k| |].
+  destruct e as [i o|i| |k|kf| |].
   - (* EStart *)
     apply (FRAME (step s (EStart i o))); try reflexivity;
       rewrite step_fixed; cbn [step_]; destruct (up s); try reflexivity; destruct (get_thread i (threads s)); reflexivity.
@@ -530,6 +539,16 @@ Proof.
       * rewrite persist_leaves_snap in Esn'; [discriminate|exact El|congruence].
       * rewrite persist_leaves_snap in Esn'; [discriminate|exact El|congruence].
       * rewrite persist_leaves_snap in Esn'; [discriminate|exact El|congruence].
+    + apply (FRAME s); try reflexivity; try assumption; rewrite step_fixed; cbn [step_]; rewrite El; reflexivity.
+  - (* EFault: the job is over, nsqd.dat as before *)
+    destruct (lock s) as [j|] eqn:El.
+    + assert (Es : step s (EFault kf) = fail_step s j kf) by (rewrite step_fixed; cbn [step_]; rewrite El; reflexivity).
+      destruct (fail_step_fields s j kf) as [E|(_ & _ & _ & _ & _ & E6 & _ & E8 & E9 & _)].
+      * apply (FRAME s); try reflexivity; try assumption. rewrite Es. exact E.
+      * rewrite Es. assert (Hsn : snapping (fail_step s j kf) = false) by (unfold snapping; rewrite E9; reflexivity).
+        rewrite Hsn. destruct HL as [A B]. split.
+        -- intros c Hc. rewrite E8 in Hc. rewrite E6. apply A. exact Hc.
+        -- intros j' Hj'. rewrite E9 in Hj'. discriminate.
     + apply (FRAME s); try reflexivity; try assumption; rewrite step_fixed; cbn [step_]; rewrite El; reflexivity.
   - (* EKill *)
     destruct (up s) eqn:Hup.
@@ -641,7 +660,7 @@ Proof.
   destruct (snapping (step s e)) eqn:Esn'; [|split; [lia|intros; discriminate]].
   destruct (snapping s) eqn:Esn; [|split; [lia|intros _ H; discriminate]].
   destruct (snapping_true _ Esn) as (j & El & Eph).
-  destruct e as [i o|i| |k| |]; cbn [is_mut_step].
+  destruct e as [i o|i| |k|kf| |]; cbn [is_mut_step].
   - (* EStart *)
     split; [exact Hn|]. intros _ En i0 p Hin.
     rewrite step_fixed in Hin. cbn [step_] in Hin. destruct (up s); [|eapply HK; eauto].
@@ -692,6 +711,11 @@ Proof.
     destruct (persist_step_threads s j k) as [E|(i1 & rest & _ & _ & _ & Hnone)].
     + rewrite E in Hin. eapply HK; eauto.
     + unfold snapping in Esn'. rewrite Hnone in Esn'. discriminate.
+  - (* EFault: either nothing happened or the lock is free again *)
+    rewrite step_fixed in Esn'. cbn [step_] in Esn'. rewrite El in Esn'.
+    destruct (fail_step_fields s j kf) as [E|(_ & _ & _ & _ & _ & _ & _ & _ & E9 & _)].
+    + split; [exact Hn|]. rewrite step_fixed. cbn [step_]. rewrite El, E. intros _. apply HK. reflexivity.
+    + unfold snapping in Esn'. rewrite E9 in Esn'. discriminate.
   - (* EKill *)
     exfalso. rewrite step_fixed in Esn'. cbn [step_] in Esn'. destruct (i1_job s I1 j El) as [Hup _]. rewrite Hup in Esn'.
     cbn in Esn'. discriminate.
